@@ -175,7 +175,7 @@ Definition src2_parse_response (endpoint : pyval -> pyval -> pyval -> pyval -> p
    | BErr => PErr
    end)).
 
-(* saml2/client_base.py:Base.parse_authn_request_response (try/finally, f(.., **kwargs) and the logging-only test on the exception text rewritten by harness/c01.py:_Desugar), lines 768-820 *)
+(* saml2/client_base.py:Base.parse_authn_request_response (try/finally, f(.., **kwargs) and the logging-only test on the exception text rewritten by harness/c01.py:_Desugar), lines 776-828 *)
 Definition src2_parse_authn_request_response (service_urls : pyval -> pyval -> pyval) (parse_response_ext : pyval -> pyval -> pyval -> pyval -> pyval -> pyval -> pyval) (add_info : pyval -> pyval -> pyval) (session_info : pyval -> pyval) (v_self : pyval) (v_xmlstr : pyval) (v_binding : pyval) (v_outstanding : pyval) (v_outstanding_certs : pyval) (v_conv_info : pyval) : pyval :=
   let v_kwargs := PErr in
   let v_resp := PErr in
